@@ -36,6 +36,10 @@ Proof. intros c i. unfold stop_loop. now rewrite late_join_false. Qed.
 Lemma gen_accepts : execute_failed enqueue_result = false /\ execute_failed enqueue_local_result = false.
 Proof. split; reflexivity. Qed.
 
+Arguments after_fail : simpl never.
+Arguments scan_start : simpl never.
+Arguments after_success : simpl never.
+Arguments held_fail : simpl never.
 Lemma gen_steal_guard : guard_on = true. Proof. reflexivity. Qed.
 Lemma gen_steal_first : steal_stops_at_first 1 = true /\ steal_stops_at_first 0 = false. Proof. split; reflexivity. Qed.
 Lemma advance_true : forall rest, advance rest true = None.
@@ -52,13 +56,13 @@ Proof. intros c. unfold scan_start. destruct (advance (blocks c) false) as [[r b
 Ltac steal_cases :=
   repeat match goal with
          | |- context [after_fail ?r ?l] =>
-           let H := fresh "Haf" in destruct (after_fail_cases r l) as [H|(? & ? & H)]; rewrite H in *
+           let H := fresh "Haf" in let r0 := fresh "sr" in let b0 := fresh "sb" in destruct (after_fail_cases r l) as [H|(r0 & b0 & H)]; rewrite H in *; clear H
          | |- context [scan_start ?c] =>
-           let H := fresh "Hsc" in destruct (scan_start_cases c) as [H|(? & ? & H)]; rewrite H in *
+           let H := fresh "Hsc" in let r0 := fresh "sr" in let b0 := fresh "sb" in destruct (scan_start_cases c) as [H|(r0 & b0 & H)]; rewrite H in *; clear H
          | H0 : context [after_fail ?r ?l] |- _ =>
-           let H := fresh "Haf" in destruct (after_fail_cases r l) as [H|(? & ? & H)]; rewrite H in *
+           let H := fresh "Haf" in let r0 := fresh "sr" in let b0 := fresh "sb" in destruct (after_fail_cases r l) as [H|(r0 & b0 & H)]; rewrite H in *; clear H
          | H0 : context [scan_start ?c] |- _ =>
-           let H := fresh "Hsc" in destruct (scan_start_cases c) as [H|(? & ? & H)]; rewrite H in *
+           let H := fresh "Hsc" in let r0 := fresh "sr" in let b0 := fresh "sb" in destruct (scan_start_cases c) as [H|(r0 & b0 & H)]; rewrite H in *; clear H
          end.
 
 Definition orders_ok : bool :=
@@ -1606,6 +1610,33 @@ Proof.
 Qed.
 Lemma ex_failed_never_runs : forall c progs s id, Reach c progs s -> In id (refused s) -> ~ In id (map fst (started s)).
 Proof. intros c progs s id Hr Hin. rewrite (ex_none_refused _ _ _ Hr) in Hin. destruct Hin. Qed.
+
+(* ======================================================================================== *)
+(* at most one task is taken per steal scan: the callback passed to for_each is invoked once per storage block and
+   begins with the regenerated guard `if (steal_success) return;`, so after a successful try_pop every later block
+   is skipped and the stolen task is dispatched - it is never overwritten by a second steal or by the global pop *)
+Lemma dispatch_not_held : forall it r cu it0, dispatch it <> WStealHeld r cu it0.
+Proof. intros it r cu it0. unfold dispatch. destruct (_ =? _)%Z; [destruct it; discriminate|]. destruct (_ =? _)%Z; discriminate. Qed.
+Lemma step_no_held : forall c s t s', step c s t = Some s' ->
+  exists th th', nth_error (threads s) t = Some th /\ threads s' = set_nth t th' (threads s) /\
+                 forall r cu it, tpc th' <> WStealHeld r cu it.
+Proof.
+  intros c s t s' H. destr_step H; kill_gen; simp_st;
+    rewrite ?stop_loop_eq; steal_cases; unfold after_sweep;
+    repeat match goal with |- context [if ?b then _ else _] => destruct b eqn:? end;
+    eexists; eexists; (split; [reflexivity|]; split; [reflexivity|]);
+    intros r0 cu0 it0; cbn [tpc goto next_op]; try discriminate; apply dispatch_not_held.
+Qed.
+Lemma ex_one_task_per_scan : forall c progs s, Reach c progs s ->
+  forall t th r cu it, nth_error (threads s) t = Some th -> tpc th <> WStealHeld r cu it.
+Proof.
+  intros c progs. apply (reach_ind c progs (fun s => forall t th r cu it, nth_error (threads s) t = Some th -> tpc th <> WStealHeld r cu it)).
+  - intros t th r cu it H Hp. apply nth_error_In, init_threads_in in H.
+    destruct H as [[_ E]|[(w0 & _ & E)|[_ E]]]; rewrite E in Hp; discriminate.
+  - intros s t s' _ IH Hs t0 th0 r cu it Hn0.
+    destruct (step_no_held _ _ _ _ Hs) as (th & th' & Hn & Ht & Hno).
+    rewrite Ht in Hn0. apply nth_error_set_nth in Hn0. destruct Hn0 as [[-> ->]|[_ Hn0]]; eauto.
+Qed.
 
 (* non-vacuity: one worker, local capacity 1, task 0 spawns task 1; submit 0 then stop() *)
 Definition demo_cfg : config :=
